@@ -14,8 +14,9 @@ static Verdict run(const Case &c) {
     bool contaminated = false;   // foreign Hello / other-service Discover / generation change seen before
     int last_gen[2] = {-1, -1};
     int checked = 0, nontriv_checked = 0, undetermined = 0, bridged = 0, gen0 = 0;
-    for (size_t i = 0; i < c.ops.size() && v.ok; i++) {
-        const Op &op = c.ops[i];
+    const std::vector<Op> ops = expand_repeats(c.ops);
+    for (size_t i = 0; i < ops.size() && v.ok; i++) {
+        const Op &op = ops[i];
         if (op.kind == K_ADVANCE) { vp_set_now_ms(vp_now_ms() + (uint64_t)op.arg(0)); continue; }
         if (op.kind == K_SETICON) { w.set_icon(op.blob); continue; }
         if (op.kind == K_OTHERIF) { oif.step(w, h, op); continue; }
@@ -82,7 +83,7 @@ int main(int argc, char **argv) {
               "non-trivial = a checked Discover preceded by a foreign Hello, a Discover of the other service or a generation change; "
               "distinct = digest of the whole case";
     HistWeights w;
-    w.discover = 10; w.hello = 4; w.reset = 3; w.otherif = 1;
+    w.discover = 10; w.hello = 4; w.reset = 3; w.otherif = 1; w.repeat = 1;
     auto gen = rc::gen::exec([=] {
         Case c = *hg::hist_case(w, 1, 40);
         if (*gx::chance(15) && !c.ops.empty()) {   // the platform changes the interface's address somewhere in the history
